@@ -10,7 +10,7 @@ import traceback
 import sympy as sp
 
 from . import source, sym, smt
-from .interp import (Interp, enumerate_paths, Path, BlockSpec, Stale, SymObj, Closure, PyExc, Undecided, Env, BoundMethod,
+from .interp import (Interp, enumerate_paths, Path, BlockSpec, Stale, Native, SymObj, Closure, PyExc, Undecided, Env, BoundMethod,
                      ClassRef, EnumVal, External, Opaque, PathEnd, Infeasible)
 from .smt import VC
 from .sym import real, integer, boolean, specfun, Eq, Ne, And, Or, Not, Implies, Lt, Le, Gt, Ge, R  # noqa: F401
